@@ -644,6 +644,8 @@ func c17Exec(c kCase, evs []kEvent, res *engine.Result, sample *interface{}, pro
 				entries++
 				if !v.Tombstoned() {
 					got[k.(int)] = v.Value.(int)
+				} else if m, ok := h.state[k.(int)]; ok && m.Tomb != 0 && v.TombstoneSinceEpochNanos != kT(m.Tomb).UnixNano() {
+					viol("tombstone-time", "h%d: key %v carries the tombstone of %s, the earliest tombstone merged is that of rank %d (%s)", hi+1, k, time.Unix(0, v.TombstoneSinceEpochNanos).UTC().Format("15:04:05"), m.Tomb, kT(m.Tomb).UTC().Format("15:04:05"))
 				}
 				err = cur.Forward(ctx)
 			}
